@@ -191,6 +191,7 @@ class T:
     def __ge__(self, o): return self._cmp(o, 'ge')
     def __eq__(self, o): return self._cmp(o, 'eq')
     def __ne__(self, o): return self._cmp(o, 'ne')
+    def __bool__(self): return True if self.c != 0 else ENG.branch(self.e != 0)          # truthiness of a float: 0.0 is falsy (`time or default`)
     def __repr__(self): return f'T({self.c},{self.e})'
 
     def concrete(self, model):
